@@ -23,6 +23,9 @@ RULE = (
     "must equal reading time - held time (then output time - last reading time); reading-less ticks checked differentially; control-less tick of a control model must be "
     "refused; the C++ runtime is driven through the same histories and must issue the same call sequence. "
     "distinct = distinct (held time, tick) transitions; non-trivial = tick with >= 1 reading."
+    " Error path: every first tick in which one reading (alone, before or after an ordinary / rejected one) makes sensor_model raise, "
+    "the caller catching the error, followed by every second tick of a 16-tick menu: the held estimate must have been predicted over "
+    "exactly held time - start time, state and covariance must belong together, and the second tick must be the reference fold from that hold."
 )
 ASSUMPTIONS = [
     "consecutive prediction steps are collapsed to their summed dt (the split is C10's business); times compared to 1e-9",
@@ -55,6 +58,8 @@ class Symbolic:
 
     def sensor_model(self, state, covariance, *, sensor_key, sensor_reading):
         self.calls.append(("S", sensor_key))
+        if sensor_key == "x":  # a reading the filter cannot apply (unknown sensor, bad shape, ...): the error reaches the caller
+            raise KeyError("x")
         if sensor_key == "n":  # rejected by innovation filtering: estimate returned unchanged (same objects)
             return _sc(state, covariance)
         t = ("S", sensor_key, sensor_reading, state, covariance)
@@ -173,6 +178,9 @@ def cases(tier, seed):
     # a large time base with a dyadic step: all times are exactly representable (2^30 + k/16), so the fold is exact there too
     yield {"runtime": "py", "t0": 2.0 ** 30, "ctrl": "u1", "tier": "quick", "depth": 2, "h": 0.125}
     yield {"runtime": "py-refuse"}
+    for t0 in (0.0, 10.0):
+        for ctrl in (None, "u1"):
+            yield {"runtime": "py-raise", "t0": t0, "ctrl": ctrl}
     from fv.props import c11_cpp
     yield from c11_cpp.cases(tier, seed)
 
@@ -216,6 +224,8 @@ def eval_case(case):
                                   f"{impl.calls} (held time now {mf.current_time})"})
         return {"n": n, "fails": fails, "outcomes": ["refusal-checked"], "sigs": ["py-refuse"]}
 
+    if case["runtime"] == "py-raise":
+        return eval_raise(case)
     t0, ctrl = case["t0"], case["ctrl"]
     data_of = lambda key, z: ("Z", z)
 
@@ -314,6 +324,98 @@ def eval_case(case):
                        "trace": [[o, rs] for o, rs in (stt.sample_traces[0][1:] if stt.sample_traces else [])][:3]}}
 
 
+def total_dt(term):
+    """time covered by all prediction steps recorded in a (symbolic) estimate"""
+    if term[0] == "init":
+        return 0.0
+    if term[0] == "S":
+        return total_dt(term[3])
+    return term[1] + total_dt(term[2])
+
+
+def eval_raise(case):
+    """a tick in which one reading cannot be applied (the filter's sensor_model raises; the caller catches and carries on):
+    whatever progress the runtime keeps, the held estimate must be the estimate AT the held time (the prediction steps recorded
+    in it cover exactly held time - start time, state and covariance from the same estimate), and the following tick is the
+    reference fold from that hold"""
+    from formak import runtime
+    t0, ctrl = case["t0"], case["ctrl"]
+    fails, n, sigs = [], 0, []
+
+    def fail(key, what, hist):
+        if not any(f["key"] == key for f in fails):
+            fails.append({"key": key, "what": what + f"; history {hist} from t0={t0}, control={ctrl}"})
+
+    firsts = []
+    for oo in OUT_OFFS:
+        for ro in READ_OFFS:
+            firsts.append((oo, [(ro, "x")]))
+            for ro2 in (0.5, 2.5, -1.5):
+                for k2 in ("a", "n"):
+                    firsts.append((oo, [(ro2, k2), (ro, "x")]))
+                    firsts.append((oo, [(ro, "x"), (ro2, k2)]))
+    seconds = [(oo, lst) for oo in OUT_OFFS for lst in ([], [(0.5, "a")], [(-1.5, "b")], [(2.5, "n")])]
+    for f_ev in firsts:
+        for s_ev in seconds:
+            impl = Symbolic(H, 1 if ctrl is not None else 0)
+            mf = runtime.ManagedFilter(impl, t0, ("init", 0), ("init", 0))
+            out1 = t0 + f_ev[0] * H
+            r1 = [runtime.StampedReading(t0 + ro * H, k, _data=("Z", f"z0_{i}")) for i, (ro, k) in enumerate(f_ev[1])]
+            kw = {"control": ctrl} if ctrl is not None else {}
+            hist = [(out1, [(t0 + ro * H, k) for ro, k in f_ev[1]])]
+            raised = False
+            try:
+                mf.tick(out1, readings=r1, **kw)
+            except KeyError:
+                raised = True
+            except Exception as e:
+                fail(f"raising-reading:other-exception:{type(e).__name__}:py", f"tick raised {e!r}", hist)
+                continue
+            n += 1
+            sigs.append(f"pyraise:{t0}:{ctrl}:{f_ev}:{s_ev}")
+            try:
+                held = drop_small(nf(mf.state))
+                heldc = drop_small(nf(mf.covariance))
+            except Mismatch as e:
+                fail("raising-reading:mixed-estimates:py", f"after the failed tick: {e}", hist)
+                continue
+            if not same(held, heldc):
+                fail("raising-reading:state-covariance-differ:py", f"after the failed tick the held state is {show(held)} but the held covariance "
+                     f"is {show(heldc)}", hist)
+                continue
+            covered = total_dt(nf(mf.state))
+            if abs(covered - (mf.current_time - t0)) > 2 * TOL:
+                fail("raising-reading:held-time-vs-estimate:py", f"after a tick in which a reading raised{'' if raised else ' (error swallowed)'}, the held "
+                     f"time is {mf.current_time!r} but the held estimate {show(held)} has been predicted over {covered!r} s from {t0}", hist)
+                continue
+            # the following tick, from whatever hold the runtime kept
+            held_t = mf.current_time
+            out2 = held_t + s_ev[0] * H
+            rd2 = [(held_t + ro * H, k, f"z1_{i}") for i, (ro, k) in enumerate(s_ev[1])]
+            hist2 = hist + [(out2, [(t, k) for t, k, _ in rd2])]
+            try:
+                res = mf.tick(out2, readings=[runtime.StampedReading(t, k, _data=("Z", z)) for t, k, z in rd2], **kw)
+            except Exception as e:
+                fail(f"tick-after-failed-tick-raises:{type(e).__name__}:py", f"the tick after the failed one raised {e!r}", hist2)
+                continue
+            n += 1
+            (exp_t, exp_held), exp_out = ref_tick(held_t, held, out2, rd2, ctrl, lambda k, z: ("Z", z))
+            try:
+                got_out = drop_small(nf(res[0]))
+                got_held = drop_small(nf(mf.state))
+            except Mismatch as e:
+                fail("tick-after-failed-tick:mixed-estimates:py", str(e), hist2)
+                continue
+            if not same(got_out, drop_small(exp_out)):
+                fail("tick-after-failed-tick:result:py", f"returned {show(got_out)}, the fold from the hold ({held_t!r}, {show(held)}) gives "
+                     f"{show(drop_small(exp_out))}", hist2)
+            elif abs(mf.current_time - exp_t) > 2 * TOL or not same(got_held, drop_small(exp_held)):
+                fail("tick-after-failed-tick:hold:py", f"holds ({mf.current_time!r}, {show(got_held)}), expected ({exp_t!r}, {show(drop_small(exp_held))})", hist2)
+    return {"n": n, "fails": fails[:3], "sigs": sigs, "outcomes": ["py-raising-reading"],
+            "counters": {"failed_ticks": len(firsts) * len(seconds)},
+            "sample": {"runtime": "py-raise", "t0": t0, "control": ctrl, "first_ticks": len(firsts), "second_ticks": len(seconds)}}
+
+
 def _hist_of(f, t0):
     """rebuild the concrete tick list from a BFS event history"""
     held = t0
@@ -400,6 +502,6 @@ def finalize(agg, tier):
             "explanation": "every transition is a real tick() on the real runtime; the reference fold is the 6-line model it is compared with"}
 
 
-REQUIRED_OUTCOMES = ["py-explored", "refusal-checked", "readings0", "readings1", "readings2", "reading-before-held",
+REQUIRED_OUTCOMES = ["py-explored", "refusal-checked", "py-raising-reading", "readings0", "readings1", "readings2", "reading-before-held",
                      "reading-after-output", "unordered-readings", "duplicate-times", "output-before-held",
                      "cpp-explored", "cpp-combo0", "cpp-combo3", "cpp-refusal-checked"]
